@@ -67,7 +67,7 @@ type concStats struct {
 	runs, ops, compactions, yields int
 }
 
-func concRun(r *rng, fsys fs.FileSystem, dir string, nGor, nKeys, opsPer int, withClose bool, res *Result, name string, st *concStats) {
+func concRun(r *rng, fsys fs.FileSystem, dir string, nGor, nKeys, opsPer int, withClose bool, res *Result, name string, st *concStats, cold int) {
 	seed := uint32(r.next())
 	pogreb.VerifSeedOverride = &seed
 	o := &pogreb.Options{FileSystem: fsys}
@@ -92,6 +92,11 @@ func concRun(r *rng, fsys fs.FileSystem, dir string, nGor, nKeys, opsPer int, wi
 	keys := make([][]byte, nKeys)
 	for i := range keys {
 		keys[i] = []byte(fmt.Sprintf("k%d", i))
+	}
+	// cold keys: written once, never touched by the workers: compaction keeps promoting their live
+	// records, one index-bucket write-back per record, while the workers update the same bucket
+	for i := 0; i < cold; i++ {
+		_ = db.Put([]byte(fmt.Sprintf("cold%d", i)), []byte(strings.Repeat("c", 40)))
 	}
 	var clock int64
 	var mu sync.Mutex
@@ -177,7 +182,7 @@ func concRun(r *rng, fsys fs.FileSystem, dir string, nGor, nKeys, opsPer int, wi
 			case 2:
 				_ = db.Sync()
 			case 3:
-				if c := db.Count(); int(c) > nKeys {
+				if c := db.Count(); int(c) > nKeys+cold {
 					mu.Lock()
 					countViol = append(countViol, fmt.Sprintf("Count()=%d with %d keys in use", c, nKeys))
 					mu.Unlock()
@@ -288,7 +293,12 @@ func genC07(r *rng, tier string, res *Result) {
 		if i%4 == 3 {
 			fsys, dir = fs.OSMMap, filepath.Join(tmp, fmt.Sprintf("m%d", i))
 		}
-		concRun(r, fsys, dir, 2+r.intn(6), 2+r.intn(4), 40+r.intn(60), false, res, fmt.Sprintf("C07/%d", i), st)
+		cold := 0
+		ops := 40 + r.intn(60)
+		if i%2 == 1 {
+			cold, ops = 6+r.intn(8), 150+r.intn(150)
+		}
+		concRun(r, fsys, dir, 2+r.intn(6), 2+r.intn(4), ops, false, res, fmt.Sprintf("C07/%d", i), st, cold)
 		res.Cases++
 		res.Distinct++
 	}
@@ -323,7 +333,7 @@ func genC10(r *rng, tier string, res *Result) {
 		if os.Getenv("PGH_FS") == "mem" {
 			fsys, dir = fs.Mem, fmt.Sprintf("c10mem-%d-%d", res.Seed, i)
 		}
-		concRun(r, fsys, dir, 2+r.intn(6), 2+r.intn(4), 30+r.intn(60), i%2 == 0, res, fmt.Sprintf("C10/%d", i), st)
+		concRun(r, fsys, dir, 2+r.intn(6), 2+r.intn(4), 30+r.intn(60), i%2 == 0, res, fmt.Sprintf("C10/%d", i), st, r.intn(6))
 		res.Cases++
 		res.Distinct++
 	}
